@@ -18,6 +18,13 @@ type c02Case struct {
 	C, L, K, R int      // root = Alloc(C,L,K) followed by R single-sample appends
 	Path       [][2]int `json:"path"` // valid slicings applied first (nesting)
 	S, E       int      // the slicing under test
+	// Twice: the slicing under test is made a first time, one sample is appended through that first
+	// window (where it has room), and only then the slicing under test proper is made: it yields a window
+	// of its own, whatever the parent handed out before.
+	Twice bool `json:"twice,omitempty"`
+	// G > 0: the root was grown first by an Append of K-L+G frames (beyond its capacity): its capacity is
+	// then whatever the library reports (K is that reported capacity, filled in by the enumerator).
+	G int `json:"g,omitempty"`
 }
 
 // c02Build builds root, observer and model and applies the path.
@@ -26,6 +33,13 @@ func c02Build(cs c02Case) (root, obs dyn.Buf, cur dyn.Buf, st *mstore, mcur mvie
 	root = dyn.Alloc(t, al(cs.C, cs.L, cs.K))
 	for i := 0; i < cs.R; i++ {
 		root.AppendSample(dyn.Tok(t, 0))
+	}
+	if cs.G > 0 {
+		root = c02Grown(t, cs.C, cs.L, cs.G)
+		if root.Capacity() != cs.K || root.Cap() != cs.C*cs.K || root.Len() != cs.C*cs.L {
+			fs = append(fs, core.Failf("Slice/setup", "%s the grown root has Len %d Cap %d Capacity %d, the same construction gave capacity %d before", c02Desc(cs), root.Len(), root.Cap(), root.Capacity(), cs.K))
+			return
+		}
 	}
 	obs = root.Slice(0, cs.K)
 	st = newStore(cs.C * cs.K)
@@ -50,7 +64,22 @@ func c02Build(cs c02Case) (root, obs dyn.Buf, cur dyn.Buf, st *mstore, mcur mvie
 	return
 }
 
+// c02Grown: Alloc(C, l0, l0) with l0 = max(L-G, 0) frames, grown by an Append of L-l0 frames to L frames.
+func c02Grown(t, C, L, G int) dyn.Buf {
+	l0 := L - G
+	if l0 < 0 {
+		l0 = 0
+	}
+	root := dyn.Alloc(t, al(C, l0, l0))
+	src := dyn.Alloc(t, al(C, L-l0, L-l0))
+	root.Append(src)
+	return root
+}
+
 func c02Desc(cs c02Case) string {
+	if cs.G > 0 {
+		return fmt.Sprintf("Alloc[%s](C=%d) grown by Append to %d frames (capacity %d), path %v:", cs.Type, cs.C, cs.L, cs.K, cs.Path)
+	}
 	return fmt.Sprintf("Alloc[%s](C=%d,L=%d,K=%d)+%d samples, path %v:", cs.Type, cs.C, cs.L, cs.K, cs.R, cs.Path)
 }
 
@@ -66,6 +95,17 @@ func c02RunRaw(cs c02Case) (fs []F) {
 	t := typeByName(cs.Type)
 	fail := func(kind, format string, a ...any) {
 		fs = append(fs, core.Failf("Slice/"+kind, "%s Slice(%d,%d): %s", c02Desc(cs), cs.S, cs.E, fmt.Sprintf(format, a...)))
+	}
+	var first dyn.Buf
+	if m1, ok1 := mcur.slice(cs.S, cs.E); cs.Twice && ok1 {
+		if pn, msg := dyn.Try(func() { first = cur.Slice(cs.S, cs.E) }); pn {
+			fail("panic-on-valid", "valid range (capacity %d) panicked: %s", mcur.capacity(), msg)
+			return
+		}
+		first.AppendSample(dyn.Tok(t, tk(int64(len(st.cells)+7))))
+		if m1.n < m1.ch*m1.capacity() {
+			st.cells[m1.off+m1.n] = tk(int64(len(st.cells) + 7))
+		}
 	}
 	before := hdr(cur)
 	mchild, ok := mcur.slice(cs.S, cs.E)
@@ -88,7 +128,14 @@ func c02RunRaw(cs c02Case) (fs []F) {
 		return
 	}
 	if d := cmpView(child, mchild); d != "" {
+		if cs.Twice {
+			d += " (the same range was sliced before and that first window was appended to)"
+		}
 		fail("view", "%s", d)
+		return
+	}
+	if first != nil && first.Ptr() == child.Ptr() {
+		fail("header-reused", "slicing the same range again returned the very buffer object handed out before, which is still in use")
 		return
 	}
 	// aliasing, both ways, over the child's whole capacity
@@ -216,6 +263,12 @@ func init() {
 							if !valid {
 								inv++
 							}
+							if valid && len(fs) == 0 {
+								cs2 := cs
+								cs2.Twice = true
+								c.Check(cs2, true, c02Run(cs2))
+								n++
+							}
 							if valid && len(path) < maxDepth-1+1 && len(fs) == 0 && len(path)+1 < maxDepth {
 								rec(append(append([][2]int{}, path...), [2]int{s, e}), mcap-s)
 							}
@@ -229,6 +282,60 @@ func init() {
 			})
 			_ = nodes
 			_ = invalid
+			// roots that were grown by Append before (their capacity is what the library reports afterwards)
+			var grownJobs []c02Case
+			for _, t := range []int{dyn.Int8, dyn.Int16, dyn.Float64} {
+				for C := 1; C <= 3; C++ {
+					for L := 1; L <= 5; L++ {
+						for G := 1; G <= L; G += 2 {
+							K := 0
+							if pn, _ := dyn.Try(func() { K = c02Grown(t, C, L, G).Capacity() }); pn || K < L || K > 64 {
+								K = L
+							}
+							grownJobs = append(grownJobs, c02Case{Type: tn(t), C: C, L: L, K: K, G: G})
+						}
+					}
+				}
+			}
+			c.ParallelFor(len(grownJobs), func(i int) {
+				base := grownJobs[i]
+				var n int64
+				for s := -1; s <= base.K+1; s++ {
+					for e := -1; e <= base.K+1; e++ {
+						cs := base
+						cs.S, cs.E = s, e
+						c.Check(cs, true, c02Run(cs))
+						n++
+					}
+				}
+				c.Add("slicings_tested", n)
+			})
+			// every channel count up to 1030 x every length up to 66 frames: the length of the window in frames
+			var wide []int
+			for C := 1; C <= 1030; C++ {
+				wide = append(wide, C)
+			}
+			c.ParallelFor(len(wide), func(i int) {
+				C := wide[i]
+				const K = 66
+				root := dyn.Alloc(dyn.Int8, al(C, 0, K))
+				for e := 0; e <= K; e++ {
+					w := root.Slice(0, e)
+					want := header{C, 8, C * e, C * K, e, K}
+					if h := hdr(w); h != want {
+						c.Fail(c02Case{Type: "int8", C: C, L: 0, K: K, S: 0, E: e}, core.Failf("Slice/view", "Alloc[int8](C=%d,L=0,K=%d) Slice(0,%d): the window has shape %+v, want %+v", C, K, e, h, want))
+						break
+					}
+					if e > 2 {
+						want2 := header{C, 8, C * 2, C * (K - e + 2), 2, K - e + 2}
+						if h := hdr(root.Slice(e-2, e)); h != want2 {
+							c.Fail(c02Case{Type: "int8", C: C, L: 0, K: K, S: e - 2, E: e}, core.Failf("Slice/view", "Alloc[int8](C=%d,L=0,K=%d) Slice(%d,%d): the window has shape %+v, want %+v", C, K, e-2, e, h, want2))
+							break
+						}
+					}
+				}
+				c.Eval(2*K, 2*K)
+			})
 			// long buffers, sparse ranges
 			var bigJobs []job
 			for _, t := range []int{dyn.Int8, dyn.Uint16, dyn.Float32, dyn.Int64} {
@@ -344,7 +451,7 @@ func init() {
 			})
 			c.Sample(c02Case{Type: "int8", C: 4, L: 1, K: 2, R: 0, S: 0, E: 1<<62 + 1})
 			c.Sample(c02Case{Type: "float32", C: 2, L: 1, K: 3, R: 1, Path: [][2]int{{1, 2}}, S: 0, E: 2})
-			c.Set("rule", fmt.Sprintf("13 element types x C in 1..4 x roots Alloc(C,L,K<=%d) incl. partly filled last frames x nested valid slicings to depth %d x every (start,end) in ([-2,cap+2] + MinInt, MinInt+1, -2^62, MaxInt/C-1..+1, MaxInt-1, MaxInt, and every x with C*x wrapping mod 2^64 to 0..cap+1)^2; each (root, path, start, end) is enumerated once (distinct by construction) and every one is non-trivial (either a view whose aliasing is checked cell by cell, or a range that must panic); plus sparse ranges on roots of 17, 100, 1200 frames and of 9-65 channels, 400 windows of one parent kept alive and re-inspected, small windows of a 1.2-million-sample parent, windows (head, middle, last frames) of parents of 2^24+5, 2*(2^23+3) and 3*(2^24/3+7) samples, and 2^15..2^18 channels (powers of two and neighbours)", maxK, maxDepth))
+			c.Set("rule", fmt.Sprintf("13 element types x C in 1..4 x roots Alloc(C,L,K<=%d) incl. partly filled last frames x nested valid slicings to depth %d x every (start,end) in ([-2,cap+2] + MinInt, MinInt+1, -2^62, MaxInt/C-1..+1, MaxInt-1, MaxInt, and every x with C*x wrapping mod 2^64 to 0..cap+1)^2; each (root, path, start, end) is enumerated once (distinct by construction) and every one is non-trivial (either a view whose aliasing is checked cell by cell, or a range that must panic); every valid one of them a second time after the same range was sliced before and that first window appended to; roots grown by Append first (1-3 channels, up to 5 frames), every range in [-1,cap+1]^2; every channel count 1..1030 x every window length 0..66 (shape only); plus sparse ranges on roots of 17, 100, 1200 frames and of 9-65 channels, 400 windows of one parent kept alive and re-inspected, small windows of a 1.2-million-sample parent, windows (head, middle, last frames) of parents of 2^24+5, 2*(2^23+3) and 3*(2^24/3+7) samples, and 2^15..2^18 channels (powers of two and neighbours)", maxK, maxDepth))
 			c.Assume("the storage is observed through root.Slice(0,K); a Slice broken so that this observer is not an alias makes the alias checks fail rather than pass", "linux/amd64, 64-bit int")
 		},
 		RunCase: func(c *core.Ctx, raw json.RawMessage) []F { return c02Run(decode[c02Case](raw)) },
